@@ -389,6 +389,9 @@ struct ReadReport {
     /// scratch used per successfully decoded message
     used: Vec<usize>,
     decoded: usize,
+    /// per decoded message: how many bytes at the END of the scratch region it consumed still hold
+    /// what the buffer held before the call (never written by the decode)
+    trailing_unwritten: Vec<usize>,
 }
 
 /// Reads the messages one after the other from one simulated reader with the given scratch.
@@ -431,7 +434,10 @@ fn read_chain_inner(
     let mut cur_addr = scratch.as_mut_ptr() as usize;
     let mut cur_len = scratch.len();
     let scratch_end = cur_addr + cur_len;
-    let mut report = ReadReport { used: Vec::new(), decoded: 0 };
+    let mut report = ReadReport { used: Vec::new(), decoded: 0, trailing_unwritten: Vec::new() };
+    // what the scratch held before anything was decoded into it
+    let before_fill: Vec<u8> = scratch.to_vec();
+    let scratch_base = cur_addr;
     for (i, rf) in c.refs.iter().enumerate() {
         let m = &c.msgs[i];
         let before = log.borrow().pos;
@@ -623,6 +629,15 @@ fn read_chain_inner(
                 if interrupted {
                     out.probe(p::INTERRUPTED_TRANSPARENT);
                 }
+                {
+                    let off = cur_addr - scratch_base;
+                    let now = unsafe { std::slice::from_raw_parts(cur_addr as *const u8, used) };
+                    let mut k = 0;
+                    while k < used && now[used - 1 - k] == before_fill[off + used - 1 - k] {
+                        k += 1;
+                    }
+                    report.trailing_unwritten.push(k);
+                }
                 report.used.push(used);
                 report.decoded += 1;
                 reader = Some(ok.reader);
@@ -778,6 +793,42 @@ fn exec_c11(t: &C11Trace, out: &mut Outcome<C11Trace>) {
             Some(C11Trace { enumerate: false, rfault: None, scratch: Scratch::Big, rscript: calm.clone(), ..t.clone() })
         ),
     };
+    // "the unused scratch returned": decode once more into a scratch pre-filled with the
+    // complementary bytes. A byte the decode wrote holds the same value in both runs, so it cannot
+    // equal both fills; bytes at the end of the region a message consumed that kept the fill in
+    // BOTH runs were consumed but never written — unused scratch that was not handed back.
+    crate::supervisor::set_ctx([3, 0, 1, BIG as u64]);
+    let (second, _) = arena::with_arena(|a| {
+        a.with_buf(
+            BIG,
+            t.place,
+            |buf| {
+                for b in buf.iter_mut() {
+                    *b = !*b;
+                }
+                read_chain(&measure, buf, out)
+            },
+            |_| None,
+        )
+    });
+    if let Ok(sec) = &second {
+        for i in 0..measured.decoded.min(sec.decoded) {
+            let leak = measured.trailing_unwritten[i].min(sec.trailing_unwritten[i]);
+            if leak > 0 {
+                out.fail(
+                    "C11",
+                    "scratch-remainder",
+                    key("scratch-remainder"),
+                    format!(
+                        "message {i} consumed {} scratch bytes but never wrote the last {leak} of them (same bytes untouched under two different pre-fills): unused scratch was not returned",
+                        measured.used[i]
+                    ),
+                    Some(C11Trace { enumerate: false, rfault: None, scratch: Scratch::Big, rscript: calm.clone(), ..t.clone() }),
+                );
+                return;
+            }
+        }
+    }
     let all_ok = refs.iter().all(|r| r.val.is_some());
     if all_ok && measured.decoded == refs.len() && !t.trailing.is_empty() {
         out.probe(p::TRAILING_UNDELIVERED);
